@@ -49,6 +49,7 @@ fn arb_op() -> impl Strategy<Value = Op> {
         1 => (any::<u16>(), 0i32..4).prop_map(|(r, k)| Op::Cmd { r, lane: 2, body: format!("@remove(key:{})", k) }),
         1 => any::<u16>().prop_map(|r| Op::Cmd { r, lane: 2, body: "@clear".to_string() }),
         2 => any::<u16>().prop_map(|r| Op::Cmd { r, lane: 4, body: String::new() }),
+        2 => (any::<u16>(), 0usize..MALFORMED_MAP.len()).prop_map(|(r, i)| Op::Cmd { r, lane: 2, body: MALFORMED_MAP[i].to_string() }),
         // the program is chosen by index later ("P<n>" is resolved against the number of programs)
         5 => (any::<u16>(), any::<u16>()).prop_map(|(r, p)| Op::Cmd { r, lane: 5, body: format!("P{}", p) }),
         1 => any::<u16>().prop_map(|r| Op::Cmd { r, lane: 6, body: "1".to_string() }),
@@ -57,8 +58,42 @@ fn arb_op() -> impl Strategy<Value = Op> {
     ]
 }
 
+/// Not map messages: rejected by the runtime (`BadEnvelope`), nothing may be sent for them.
+const MALFORMED_MAP: [&str; 9] = ["garbage", "", "5", "@unknown(key:1) 2", "@update(key:", "@update", "{a:1}", "@remove", "@update(key:1"];
+/// Forwarded by the runtime but not decodable by the lane: the agent task fails (user-code error) and
+/// the agent stops, which must close every link like any other stop. (lane index, body)
+const ILL_TYPED: [(u8, &str); 7] = [
+    (0, "not_a_number"),
+    (1, "@@@"),
+    (4, "\"text\""),
+    (5, "x"),
+    (2, "@update(key:notint) 5"),
+    (2, "@update(key:1) text"),
+    (2, "@remove(key:{a:1})"),
+];
+
+fn well_formed_command(lane: &str, text: &str) -> bool {
+    let int = |s: &str| s.trim().parse::<i64>().is_ok();
+    match lane {
+        "v0" | "v1" | "cmd" | "ctl" => int(text),
+        "m0" => {
+            if MALFORMED_MAP.contains(&text) || text == "@clear" {
+                true // rejected before the lane sees it / valid
+            } else if let Some(rest) = text.strip_prefix("@remove(key:") {
+                rest.strip_suffix(')').map(int).unwrap_or(false)
+            } else if let Some(rest) = text.strip_prefix("@update(key:") {
+                rest.split_once(") ").map(|(k, v)| int(k) && int(v)).unwrap_or(false)
+            } else {
+                false
+            }
+        }
+        _ => true,
+    }
+}
+
 fn arb_fault() -> impl Strategy<Value = Op> {
     prop_oneof![
+        1 => (any::<u16>(), 0usize..ILL_TYPED.len()).prop_map(|(r, i)| Op::Cmd { r, lane: ILL_TYPED[i].0, body: ILL_TYPED[i].1.to_string() }),
         2 => Just(Op::Stop),
         2 => Just(Op::Advance { ms: 400 }),
         2 => any::<u16>().prop_map(|r| Op::Drop { r }),
@@ -467,8 +502,22 @@ pub fn check(case: &Case) -> Verdict {
         v.fail("sim:livelock:system-never-idle", "the agent kept waking itself for 300000 polls without any input: the harness gave up waiting for quiescence");
         return v;
     }
+    let ill_typed = obs.remotes.iter().any(|r| {
+        r.sent.iter().any(|(lane, req, _, w)| match req {
+            Req::Command(body) if w.is_some() => !well_formed_command(lane, &String::from_utf8_lossy(body)),
+            _ => false,
+        })
+    });
+    v.class_if(ill_typed, "ill-typed-command-delivered");
+    v.class_if(
+        obs.remotes.iter().any(|r| r.sent.iter().any(|(lane, req, _, _)| lane == "m0" && matches!(req, Req::Command(b) if MALFORMED_MAP.contains(&String::from_utf8_lossy(b).as_ref())))),
+        "malformed-map-command",
+    );
     if let Some(Err(e)) = &obs.result {
-        v.fail("sim:agent-task-error", format!("the agent task ended with an error: {}", e));
+        // a command the lane cannot decode fails the agent task by design
+        if !ill_typed {
+            v.fail("sim:agent-task-error", format!("the agent task ended with an error: {}", e));
+        }
     }
     // what the lanes produced, from the agent-side trace
     let mut value_hist: Vec<Vec<(u64, i64)>> = vec![vec![(0, 0)], vec![(0, 0)]];
